@@ -26,6 +26,11 @@ NextSym(c) == CASE c = 97 -> 98 [] c = 98 -> 233 [] c = 233 -> 8364 [] c = 8364 
                 [] c = 128512 -> 769 [] OTHER -> 97
 
 StringsUpTo(n) == UNION {[1..k -> Alphabet] : k \in 0..n}
+(* strings outside the alphabet: the replacement character U+FFFD itself (a genuine 3-byte code point that decoders also *)
+(* return for invalid input) alone, repeated, between letters and next to its neighbours; the first and last code point  *)
+(* of every UTF-8 length (U+007F/0080, 07FF/0800, FFFF/10000, 10FFFF) and the ones around the surrogate gap              *)
+ExtraStrings == {<<65533>>, <<97, 65533, 98>>, <<65533, 65533>>, <<65532, 65533, 65534>>, <<233, 65533>>,
+                 <<127, 128>>, <<2047, 2048>>, <<65535, 65536>>, <<1114111>>, <<55295, 57344>>, <<97, 1114111, 128>>}
 
 Substrings(s) == {SubSeq(s, i, j) : i \in 1..(Len(s) + 1), j \in 0..Len(s)}
   \* SubSeq(s, i, j) with j < i is <<>>, so the empty pattern is included
